@@ -942,6 +942,21 @@ func (n *TxNotifier) UpdateConfDetails(confRequest ConfRequest,
 	// Cache the details found in the rescan and attempt to dispatch any
 	// notifications that have not yet been delivered.
 	confSet.details = details
+
+	// The cached details are served to clients that register later on and
+	// keep the confirm hint at their height, so as long as the block they
+	// refer to can still be reorged out of the chain we'll track the
+	// request by it, whether or not it has any clients left at this point.
+	// This allows DisconnectTip to clear the details should that happen.
+	if details.BlockHeight+n.reorgSafetyLimit > n.currentHeight {
+		txSet, exists := n.confsByInitialHeight[details.BlockHeight]
+		if !exists {
+			txSet = make(map[ConfRequest]struct{})
+			n.confsByInitialHeight[details.BlockHeight] = txSet
+		}
+		txSet[confRequest] = struct{}{}
+	}
+
 	for _, ntfn := range confSet.ntfns {
 		// The default notification we assigned above includes the
 		// block along with the rest of the details. However not all
